@@ -193,6 +193,7 @@ type verifEnv struct {
 	onMarker     func(name string, occ int)
 	onHistoryEnd func()
 	quiet        bool // oracle-only stream: calls are not emitted for the model
+	concurrent   bool // inside concurrentStep: two API calls may be in flight
 	occ          map[string]int
 	curOpObj     *verifOp
 	curBefore    *verifView
@@ -252,7 +253,14 @@ func (f *verifFS) Unmount(ctx context.Context, mountpoint string) error {
 	ok := !e.orc.uf[id]
 	// ---- C08 oracle: the directory still exists when its mount is released ----
 	if _, err := os.Stat(filepath.Dir(mountpoint)); err != nil {
-		e.out.Fail("unmount-after-rmdir", fmt.Sprintf("%s: Unmount(%s) called after its directory was deleted", e.curOp, id))
+		// Sequentially this is always a call-order bug.  With two callers reclaiming the same orphan
+		// (sync Remove after its commit + a Cleanup) the second, redundant Unmount legitimately finds
+		// the directory gone: then it is a violation only if a backend mount was still live on it.
+		if !e.concurrent || e.live[mountpoint] > 0 {
+			e.out.Fail("unmount-after-rmdir", fmt.Sprintf("%s: Unmount(%s) called after its directory was deleted (live mounts on it: %d)", e.curOp, id, e.live[mountpoint]))
+		} else {
+			e.out.Count("conc/redundant-unmount-of-deleted-dir")
+		}
 	}
 	if strings.HasPrefix(e.curOp, "remove ") {
 		seen := false
@@ -1640,7 +1648,9 @@ func (e *verifEnv) concurrentStep(outer, inner verifConcCall, marker string, occ
 	e.trace = nil
 	e.occ = map[string]int{}
 	e.curOp = "concurrent " + what
+	e.concurrent = true
 	e.mu.Unlock()
+	defer func() { e.mu.Lock(); e.concurrent = false; e.mu.Unlock() }()
 
 	var (
 		launched  bool
